@@ -6,7 +6,13 @@ import vlib, check
 pid = sys.argv[1]; tier = sys.argv[2] if len(sys.argv) > 2 else 'quick'
 P = check.load_plugin(pid)
 ctx = {'tier': tier, 'seed': int(os.environ.get('VERIF_SEED', '1')), 'prop': pid, 'budget': 1}
-res = P.explore(ctx)
+try:
+    res = P.explore(ctx)
+except vlib.HarnessRunError as e:
+    # same treatment as check.py: the implementation crashed on a generated input -> crash finding
+    res = {'coverage': {}, 'broken': [], 'findings': [{'property': pid, 'key': {'kind': 'crash'}, 'err': None,
+           'what': f'implementation harness exited with {e.rc}', 'detail': e.err[-1500:]}]}
+    print('CRASH', e.rc, e.err[-600:].replace('\n', ' | '))
 print('evaluations', res['coverage'].get('evaluations'), 'audit', res['coverage'].get('audit_samples'), 't1_breaks', res['coverage'].get('t1_breaks'))
 for b in res['broken'][:30]:
     print('BROKEN', b['name'], b.get('count'), json.dumps(b.get('first'))[:300])
